@@ -250,6 +250,7 @@ class InterleaveProfile:
         g.w_adv = 0
         ex.apply({"op": "adv", "ns": tick_ns(0)})
         expired = False
+        ended_at = None
         while True:
             if timeout and not expired and ops and rnd.random() < 0.12:
                 op = {"op": "expire", "cid": cid}
@@ -265,11 +266,25 @@ class InterleaveProfile:
             ops.append(op)
             if not apply_conv_op(ex, op):
                 break
+            if ended_at is None and ops[0]["op"] == "announce" and ex.w.live.get(cid) is None:
+                ended_at = len(ops) - 1
+        me = next((i for i in ex.w.all if i.cid == cid), None)
+        if ended_at is not None and me is not None and me.tag and me.qstep and rnd.random() < 0.6 and not ex.h.dead:
+            # replies that arrive after this client is gone (in a merged schedule: possibly while a successor
+            # holds the same id): addressed to this instance, so they must not touch anybody
+            for _ in range(rnd.choice([1, 1, 2])):
+                op = {"op": "xreply", "cid": cid, "inst": "prev", "svc": rnd.choice(sorted(me.qstep)),
+                      "kind": rnd.choice(["X", "X", "X", "x"]),
+                      "text": rnd.choice(["OK", "OK late:1", "NO too late", "MORE late riddle", "AGAIN late again", "Not linked"]), "late": True}
+                ops.append(op)
+                if not apply_conv_op(ex, op):
+                    break
         if timeout and not expired:
             ops.append({"op": "expire", "cid": cid})
         res = ex.finish()
         if res.viol or not ops or ops[0]["op"] != "announce":
             return None
+        self.last_ended_at = ended_at
         return ops
 
     def gen_run(self, rnd, opts, tier, tag):
@@ -279,22 +294,34 @@ class InterleaveProfile:
         k = rnd.randint(2, 6)
         cids = rnd.sample(range(1, 60), k)
         convs = []
+        ended = []
         for j in range(k):
             c = self.gen_conv(rnd, cfg, cids[j], tag + "S", timeout)
             if c:
                 convs.append(c)
+                ended.append(self.last_ended_at)
+        # id reuse: a conversation may take over the id of one that has ended (its announce comes after the
+        # predecessor's last own event; the predecessor's late replies and expiry may still follow)
+        after = {}
+        for j in range(len(convs)):
+            if ended[j] is not None and rnd.random() < 0.45 and len(convs) < 8 and j not in after.values():
+                c = self.gen_conv(rnd, cfg, convs[j][0]["cid"], tag + "S", timeout)
+                if c:
+                    convs.append(c)
+                    ended.append(self.last_ended_at)
+                    after[str(len(convs) - 1)] = j
         if len(convs) < 2:
             r = proto.Result()
             r.hash = "skip"
             r.nontrivial = False
             return {"profile": "interleave", "cfg": cfg, "convs": convs, "orders": []}, r
-        orders = [self.merge(rnd, convs), self.merge(rnd, convs)]
-        if tier == "thorough" or rnd.random() < 0.3:
+        orders = [self.merge(rnd, convs, after, ended), self.merge(rnd, convs, after, ended)]
+        if tier == "thorough" or after or rnd.random() < 0.3:
             orders.append("solo")
-        plan = {"profile": "interleave", "cfg": cfg, "convs": convs, "orders": orders}
+        plan = {"profile": "interleave", "cfg": cfg, "convs": convs, "orders": orders, "after": after, "ended": ended}
         return plan, self.run(plan, tag)
 
-    def merge(self, rnd, convs):
+    def merge(self, rnd, convs, after=None, ended=None):
         """Random interleaving preserving each conversation's order, with
         expiries in announce order (one global clock)."""
         pos = [0] * len(convs)
@@ -311,6 +338,10 @@ class InterleaveProfile:
                     earlier = announced[:announced.index(k)] if k in announced else []
                     if any(e not in expired for e in earlier):
                         continue
+                if pos[k] == 0 and after and str(k) in after:
+                    j = after[str(k)]
+                    if ended[j] is None or pos[j] <= ended[j]:
+                        continue        # the predecessor on this id has not finished yet
                 enabled.append(k)
             if not enabled:
                 break
@@ -333,6 +364,7 @@ class InterleaveProfile:
             return proj, ex.finish()
         pos = [0] * len(convs)
         nann = 0
+        inst_of = {}
         for k in order:
             op = convs[k][pos[k]]
             pos[k] += 1
@@ -341,12 +373,22 @@ class InterleaveProfile:
                     break
                 nann += 1
             before = len(ex.res.outputs)
-            ok = apply_conv_op(ex, op)
+            me = inst_of.get(k)
+            if op["op"] == "xreply" and not op.get("inst", "cur").startswith("forged"):
+                # a reply belongs to this conversation's own instance, never to whoever holds the id now
+                which = op.get("inst", "cur")
+                if which == "cur" and (me is None or me.ended is not None):
+                    op = dict(op, inst="nobody")
+                elif which != "cur":
+                    op = dict(op, inst=("tag:" + me.tag) if (me is not None and me.ended is not None and me.tag) else "nobody")
+            ok = apply_conv_op(ex, op, me)
+            if op["op"] == "announce" and ex.w.all and ex.w.all[-1].cid == op["cid"]:
+                inst_of[k] = ex.w.all[-1]
             lines = []
             for o in ex.res.outputs[before:]:
                 lines += (o or [])
             cid = convs[k][0]["cid"]
-            inst = next((i for i in reversed(ex.w.all) if i.cid == cid), None)
+            inst = inst_of.get(k)
             tagk = inst.tag if inst else None
             norm = []
             for ln in lines:
@@ -414,6 +456,8 @@ class InterleaveProfile:
         res.extra["conversations"] = len(convs)
         res.extra["schedules"] = len(plan["orders"])
         res.extra["with_timeouts"] = int(bool(cfg.get("timeout")))
+        res.extra["conversations_taking_over_an_id"] = len(plan.get("after") or {})
+        res.extra["late_replies_for_departed_clients"] = sum(1 for c in convs for op in c if op.get("late"))
         return res
 
     def transcript(self, res):
@@ -435,6 +479,10 @@ class InterleaveProfile:
             c = copy.deepcopy(cur)
             del c["convs"][k]
             c["orders"] = [o if o == "solo" else [x - (x > k) for x in o if x != k] for o in c["orders"]]
+            if c.get("ended"):
+                del c["ended"][k]
+            if c.get("after"):
+                c["after"] = {str(int(a) - (int(a) > k)): (b - (b > k)) for a, b in c["after"].items() if int(a) != k and b != k}
             budget[0] -= 1
             if pred(c):
                 cur = c
@@ -446,6 +494,8 @@ class InterleaveProfile:
             while j < len(cur["convs"][k]) and budget[0] > 0:
                 c = copy.deepcopy(cur)
                 del c["convs"][k][j]
+                if c.get("ended") and c["ended"][k] is not None and j <= c["ended"][k]:
+                    c["ended"][k] -= 1
                 neworders = []
                 for o in c["orders"]:
                     if o == "solo":
@@ -470,10 +520,10 @@ class InterleaveProfile:
         return cur
 
 
-def apply_conv_op(ex, op):
+def apply_conv_op(ex, op, inst=None):
     if op["op"] == "expire":
         cid = op["cid"]
-        inst = next((i for i in reversed(ex.w.all) if i.cid == cid), None)
+        inst = inst or next((i for i in reversed(ex.w.all) if i.cid == cid), None)
         if inst is None or inst.deadline is None:
             ex.res.outputs.append([])
             return True
